@@ -4,6 +4,11 @@ import json, os
 here = os.path.dirname(os.path.dirname(os.path.abspath(__file__)))
 ALL = ['C%02d' % i for i in range(1, 21)]
 CLAIMED = {
+ 'C02': dict(
+   text='Theorems over the Gallina model of Payload (payload = text-channel encodings joined by single U+001E; decode(encode ps) = the same packets in order when no text contains the separator and the count is within the limit; the form-encoded variant decodes like the payload it carries; more segments than the limit is refused before any packet is decoded; a successful decode decoded every segment and one failing segment fails the body) for all inputs, no axioms; model compared with engineio.payload.Payload on generated lists, exhaustive short adversarial strings and random long ones on every run.',
+   note='Trusted: Coq kernel; hand-written model Payload.v on Packet.v and its differential run; json, int() and urllib.parse.parse_qs are standard-library oracles. Absence of hangs in the implementation is observed under a watchdog (testing); the model function is total by construction.',
+   technique='Coq proof (structural induction over segment lists) + model/implementation correspondence by vm_compute with logged stdlib oracles',
+   ref='5 C02'),
  'C01': dict(
    text='Theorems over the Gallina model of Packet (wire form for every type and payload kind, decode(encode p) = (type, canonical payload) for both channel kinds with the JSON look-alike rule as a function, standard base64 round trip proved outright against a transcription of CPython a2b_base64, binary-only-MESSAGE on both sides, every sequence of encode calls returns the representation of the channel asked for) for all inputs, no axioms; model compared with engineio.packet.Packet on generated and malformed inputs on every run.',
    note='Trusted: Coq kernel; hand-written model Packet.v/Base64.v and its differential run; json.dumps/json.loads/int() are standard-library oracles (hypotheses O1, O2 of the theorems, answered from logged tables when the model is run).',
